@@ -17,6 +17,8 @@ func runC19(c *Check, tier string) {
 	c.Decides = "every recursive or worklist traversal over the graph's adjacency lists descends into a node only on the 'never seen' branch of a per-node mark (set membership, three-colour map, in-degree counter reaching zero, or the IsSelected mark) and sets that mark on every path — so each node is expanded at most once and the work is bounded by nodes + edges, not by the number of paths; pairwise output-conflict checks enumerate pairs (quadratic), not paths; the map that guards a descent is the map that is marked."
 	c.NotDec = "constant factors, actual running times, third-party code."
 	ruleTraversals(c, "R19a", false)
+	// the one recursion that is not a marked traversal: it descends only into what is not yet materialised
+	ruleRerunOnlyWhenNeeded(c, "R19b")
 }
 
 type traversal struct {
@@ -385,7 +387,7 @@ func ruleTraversals(c *Check, rule string, onlyDupFree bool) {
 	tabled := map[string]string{
 		"cmd/cmds.buildTree":                          "renders the dependency *tree* for `grog graph -o tree`: one line per path is the output format, not a graph algorithm named by the property",
 		"cmd/cmds.printTree":                          "tree rendering for `grog graph`, see buildTree",
-		"(*execution.Executor).LoadDependencyOutputs": "descends only into a dependency whose outputs failed to load; the re-run that follows sets the per-target OutputsLoaded mark, so a later visit returns from LoadOutputs before descending; not one of the operations the property names (minimal-mode fault path, see C15)",
+		"(*execution.Executor).LoadDependencyOutputs": "the per-target OutputsLoaded mark is its visited set: an iteration leaves a dependency alone when the mark is set (R19b decides that the descent is reachable only past the mark-is-false branch or a failed restore), and the re-run that follows the descent sets the mark (R03h)",
 	}
 	seenFn := map[string]bool{}
 	for _, t := range findTraversals(c) {
